@@ -81,3 +81,18 @@ Proof. intros O trace h Hh. apply kcache_transparent_for_every_history; [intros 
 Theorem C06_comparison_without_concrete_refuted : exists a b pa pb, to_ph a = Some pa /\ to_ph b = Some pb /\
   ph_eqb_with ["origin"; "shape"]%string ["origin"; "shape"]%string pa pb = true /\ pa <> pb.
 Proof. exact without_concrete_refuted. Qed.
+
+(* _to_tracer has a row for every kind of tensor argument: whatever its shape, type and signature, it gets a placeholder, and the
+   placeholder holds exactly the shape / type / signature the row names (so the key distinguishes what tracing distinguishes) *)
+Theorem C06_every_tensor_argument_gets_a_placeholder : forall a, exists p, to_ph a = Some p.
+Proof. intros [k sh t ps]. destruct k; eexists; vm_compute; reflexivity. Qed.
+Print Assumptions C06_every_tensor_argument_gets_a_placeholder.
+
+Theorem C06_placeholder_fields_follow_the_argument : forall sh t ps,
+  to_ph (Build_arg KNative sh t ps) = Some {| p_conv := false; p_origin := None; p_shape := Some sh; p_concrete := [] |} /\
+  to_ph (Build_arg KNdarray sh t ps) = Some {| p_conv := true; p_origin := None; p_shape := Some sh; p_concrete := [("type"%string, CType t)] |} /\
+  to_ph (Build_arg KScalar sh t ps) = Some {| p_conv := true; p_origin := None; p_shape := Some []; p_concrete := [("type"%string, CType t)] |} /\
+  to_ph (Build_arg KCallable sh t ps) = Some {| p_conv := true; p_origin := None; p_shape := None;
+                                                p_concrete := [("type"%string, CType t); ("parameters"%string, CParams ps)] |}.
+Proof. intros sh t ps. repeat split; vm_compute; reflexivity. Qed.
+Print Assumptions C06_placeholder_fields_follow_the_argument.
